@@ -275,44 +275,40 @@ static void w_audit(void)
     check_accounting("state audit");
 }
 
+/* canonical key: every byte of the array objects and of every heap block reachable from them (descriptor, reference counters, elements' storage),
+ * with no member of the library's structs mentioned by name; addresses become names: array object index + offset, external buffer + offset,
+ * heap block class (numbered by first appearance) + offset */
+static int blk_cls[SHIM_MAXBLK], blk_queue[64], blk_nq;
 static int arr_sym(uintptr_t v)
 {
+    shim_blk *b;
     if (v >= (uintptr_t)EXT && v < (uintptr_t)EXT + sizeof EXT) { KB_C('E'); KB_U((unsigned long)(v - (uintptr_t)EXT)); return 1; }
+    if (v >= (uintptr_t)A && v < (uintptr_t)(A + NOBJ)) { size_t d = v - (uintptr_t)A; KB_C('a'); KB_U(d / sizeof A[0]); KB_C('+'); KB_U(d % sizeof A[0]); return 1; }
+    if (v > 0x10000 && ((b = shim_find((const void *)v)) != NULL || (b = shim_find((const void *)(v - 1))) != NULL)) {
+        int bi = (int)(b - shim_blks);
+        if (blk_cls[bi] < 0) { blk_cls[bi] = blk_nq; if (blk_nq < 64) blk_queue[blk_nq] = bi; blk_nq++; }
+        KB_C('B'); KB_U((unsigned)blk_cls[bi]); KB_C('+'); KB_U((unsigned long)(v - (uintptr_t)b->p)); return 1;
+    }
     return 0;
 }
 static void w_canon(void)
 {
-    int a, cls[NOBJ], ncls = 0, k;
-    const void *ptrs[NOBJ];
+    int a, k;
+    for (k = 0; k < shim_nblk && k < SHIM_MAXBLK; k++) blk_cls[k] = -1;
+    blk_nq = 0;
     for (a = 0; a < NO; a++) {
-        const void *p = A[a].ptr.data.ptr;
-        KB_C('A'); KB_C(A[a].ptr.data.self == (void *)&A[a].ptr.data ? 's' : 'X');
-        if (p == NULL) KB_C('0');
-        else {
-            for (k = 0; k < ncls; k++) if (ptrs[k] == p) break;
-            if (k == ncls) {
-                /* first sight of this descriptor: the library's bookkeeping block (reference counters...) and the buffer header, addresses symbolised */
-                shim_blk *bb = shim_find(p);
-                ptrs[ncls++] = p;
-                if (bb && bb->p == p) {
-                    const void *ra;
-                    KB_C('{'); KB_MEM(bb->p, bb->sz, arr_sym); KB_C('}');
-                    ra = cstl_shared_ptr_get_const(&A[a].ptr);
-                    if (ra && shim_find(ra) && shim_find(ra)->sz >= 24) { KB_C('<'); KB_MEM(ra, 24, arr_sym); KB_C('>'); }
-                } else KB_C('!');
-            }
-            cls[a] = k; KB_U((unsigned)k);
-        }
-        KB_C('+'); KB_U(A[a].off); KB_C('#'); KB_U(A[a].len); KB_C('M'); KB_U(O[a].off); KB_C('#'); KB_U(O[a].len); KB_C(O[a].buf >= 0 ? 'b' : '-');
-        if (p != NULL && A[a].len > 0 && A[a].len == O[a].len) {
+        KB_C('A'); KB_MEM(&A[a], sizeof A[a], arr_sym);
+        KB_C('M'); KB_U(O[a].off); KB_C('#'); KB_U(O[a].len); KB_C(O[a].buf >= 0 ? 'b' : '-');
+        if (O[a].len > 0 && cstl_array_size(&A[a]) == O[a].len) {
             /* what the descriptor says (element size, base): distance of the first and last visible element from data() */
             static void * volatile e0, * volatile e1, * volatile d; int ab;
-            SHIM_CALL(ab, (d = cstl_array_data(&A[a]), e0 = cstl_array_at(&A[a], 0), e1 = cstl_array_at(&A[a], A[a].len - 1)));
+            SHIM_CALL(ab, (d = cstl_array_data(&A[a]), e0 = cstl_array_at(&A[a], 0), e1 = cstl_array_at(&A[a], O[a].len - 1)));
             if (ab) KB_C('!'); else { KB_C('@'); KB_I((char *)e0 - (char *)d); KB_C(','); KB_I((char *)e1 - (char *)d); }
         }
         if (O[a].buf >= 0) { KB_C(B[O[a].buf].internal ? 'i' : 'e'); if (!B[O[a].buf].internal) KB_U((unsigned)B[O[a].buf].ext); KB_C('n'); KB_U(B[O[a].buf].nm); KB_C('r'); KB_U((unsigned)B[O[a].buf].refs); }
     }
-    (void)cls;
+    /* the blocks, in order of first appearance (a block may name further blocks) */
+    for (k = 0; k < blk_nq && k < 64; k++) { shim_blk *b = &shim_blks[blk_queue[k]]; KB_C('{'); KB_U(b->sz); KB_C(':'); KB_MEM(b->p, b->sz < 256 ? b->sz : 256, arr_sym); KB_C('}'); }
 }
 static void w_opname(mc_op_t o, char *b, size_t n)
 {
